@@ -260,7 +260,12 @@ def main(modname, tier, seed=None):
     if seed is None:
         seed = int(os.environ.get('VERIF_SEED', '1'))
     kf = findmod.load()
-    b = prop.budget(tier)
+    b = dict(prop.budget(tier))
+    scale = float(os.environ.get('VERIF_BUDGET_SCALE', '1'))     # for rehearsals of the thorough tier only: scales examples and wall
+    if scale != 1:
+        b['examples'] = max(1, int(b['examples'] * scale))
+        if b.get('wall'):
+            b['wall'] = max(10, int(b['wall'] * scale))
     W = int(os.environ.get('VERIF_WORKERS', b.get('workers', 14)))
     state = dict(known={})
     if os.environ.get('VERIF_SKIP_REGRESS') == '1':
